@@ -126,6 +126,24 @@ fn sentinel(rng: &mut Rng, k: u64) -> Vec<u8> {
 
 // ---------------------------------------------------------------------------- request mutants
 
+/// two padding fields (ZZZZ, PAD) behind the nonce and the offset BETWEEN them inconsistent but 4-aligned: zero, lower than
+/// the offset before it, or past the end of the value area (not past the datagram). Not a well-formed message.
+pub fn padding_offset_mutant(rng: &mut Rng, p: Proto, size: usize, variant: u64) -> Vec<u8> {
+    let nl = if p == Proto::Google { 64 } else { 32 };
+    let mut fields: Vec<(u64, Vec<u8>)> = vec![(rc::NONC, rng.bytes(nl)), (rc::ZZZZ, vec![0u8; 400]), (rc::PAD, vec![])];
+    if p == Proto::Ietf { fields.insert(0, (rc::VER, proto::VER_DRAFT13.to_le_bytes().to_vec())); }
+    let nf = fields.len();
+    let hdr = 8 * nf;
+    let last = fields.len() - 1;
+    fields[last].1 = vec![0u8; size - (if p == Proto::Ietf { 12 } else { 0 }) - hdr - fields[..last].iter().map(|f| f.1.len()).sum::<usize>()];
+    let mut enc = rc::ref_encode(&fields);
+    let area = enc.len() - hdr;
+    let prev = if nf >= 3 { crate::util::rd32(&enc[4 + 4 * (nf - 3)..]) as usize } else { 0 };
+    let bad = match variant { 0 => 0usize, 1 => prev.saturating_sub(4), 2 => area + 4, _ => area + hdr };
+    enc[4 + 4 * (nf - 2)..8 + 4 * (nf - 2)].copy_from_slice(&(bad as u32).to_le_bytes());
+    if p == Proto::Ietf { rc::ref_frame(&enc) } else { enc }
+}
+
 /// near-valid and invalid datagrams derived from valid requests (C07 / C08 material)
 pub fn mutant(rng: &mut Rng, srv: &[u8]) -> Vec<u8> {
     let p = if rng.chance(1, 2) { Proto::Google } else { Proto::Ietf };
@@ -133,7 +151,7 @@ pub fn mutant(rng: &mut Rng, srv: &[u8]) -> Vec<u8> {
     let with_srv = rng.chance(1, 3);
     let base = valid_request(rng, p, size, if with_srv { Some(srv) } else { None });
     let mut b = base.clone();
-    match rng.below(23) {
+    match rng.below(25) {
         0 => { b.truncate(rng.below(b.len() as u64) as usize); }                       // truncated
         1 => { let extra = rng.below(600) as usize + 1; let e = rng.bytes(extra); b.extend(e); } // extended
         2 => { b.truncate(1020); }                                                      // just below the minimum
@@ -212,6 +230,7 @@ pub fn mutant(rng: &mut Rng, srv: &[u8]) -> Vec<u8> {
             let nonce = rng.bytes(32);
             b = proto::build_request(p, &nonce, size, &vers, None);
         }
+        23 | 24 => { let variant = rng.below(4); b = padding_offset_mutant(rng, p, size, variant); }
         20 | 21 => {   // a field repeated (same tag twice in a row) or two neighbouring fields swapped, everything else well-formed
             let off = if p == Proto::Ietf { 12 } else { 0 };
             if let Some(mut fields) = rc::ref_decode(&base[off..]) {
@@ -251,6 +270,12 @@ pub fn drive_sizes(ctx: &mut Ctx, rng: &mut Rng, thorough: bool) {
                     run_round(ctx, &mut rig, vec![(0, d), (1, s)], vec![], false);
                 }
             }
+            // padding fields whose delimiting offset is inconsistent (every variant, both protocols, two sizes)
+            for variant in 0..4u64 { for p in [Proto::Google, Proto::Ietf] { for size in [1024usize, 1240] {
+                let d = padding_offset_mutant(rng, p, size, variant);
+                let s = sentinel(rng, variant);
+                run_round(ctx, &mut rig, vec![(0, d), (1, s)], vec![], false);
+            } } }
             // nonces of every aligned length that still fits
             for nl in (0..=1480usize).step_by(if thorough { 4 } else { 52 }) {
                 for p in [Proto::Google, Proto::Ietf] {
@@ -419,6 +444,23 @@ pub fn drive_srv(ctx: &mut Ctx, rng: &mut Rng) {
             run_round(ctx, &mut rig, vec![(0, d), (1, s)], vec![], false);
         }
     }
+    // an IETF request that carries ALL 18 known tags (the largest field count a message of known tags can have), draft-13 in
+    // VER: with this server's SRV it must be answered, with another value it must not
+    for good in [true, false, true] {
+        let mut fields: Vec<(u64, Vec<u8>)> = vec![];
+        let mut other = rig.srv.clone(); other[5] ^= 0x10;
+        for rank in 1..=18u64 {
+            fields.push((rank, match rank { x if x == rc::VER => proto::VER_DRAFT13.to_le_bytes().to_vec(), x if x == rc::SRV => if good { rig.srv.clone() } else { other.clone() },
+                x if x == rc::NONC => rng.bytes(32), x if x == rc::ZZZZ => vec![0u8; 600], x if x == rc::PAD => vec![], _ => rng.bytes(if rank % 2 == 0 { 4 } else { 8 }) }));
+        }
+        let enc = rc::ref_encode(&fields);
+        let fill = 1200 - 12 - enc.len();
+        let zi = fields.iter().position(|f| f.0 == rc::ZZZZ).unwrap();
+        fields[zi].1 = vec![0u8; 600 + fill];
+        let d = rc::ref_frame(&rc::ref_encode(&fields));
+        let s = sentinel(rng, 3);
+        run_round(ctx, &mut rig, vec![(0, d), (1, s)], vec![], false);
+    }
     for (k, c) in cases.iter().enumerate() {
         let nonce = rng.bytes(32);
         let d = proto::build_request(Proto::Ietf, &nonce, 1024, &[proto::VER_DRAFT13], c.as_deref());
@@ -488,10 +530,19 @@ pub fn drive_bursts(ctx: &mut Ctx, rng: &mut Rng, thorough: bool) {
                     16 if forced || rng.chance(1, 2) => {
                         // a valid request that carries extra fields with known tags (in wire order), one of them as long as a
                         // nonce and sorting before NONC: the server must still find and echo the NONC field
-                        let p = if rng.chance(1, 2) { Proto::Google } else { Proto::Ietf };
+                        // (every fourth burst: an IETF request that carries ALL 18 known tags - the largest field count a
+                        // message of known tags can have -, draft-13 in VER and this server's SRV)
+                        let all18 = forced && r % 4 == 3;
+                        let p = if all18 || rng.chance(1, 2) { Proto::Ietf } else { Proto::Google };
                         let nl = if p == Proto::Google { 64 } else { 32 };
                         let nonce = rng.bytes(nl);
                         let mut fields: Vec<(u64, Vec<u8>)> = vec![(rc::SIG, rng.bytes(nl)), (rc::NONC, nonce), (rc::MAXT, rng.bytes(8)), (rc::ZZZZ, vec![])];
+                        if all18 {
+                            for rank in 1..=18u64 {
+                                if fields.iter().any(|f| f.0 == rank) || rank == rc::VER || rank == rc::PAD { continue; }
+                                fields.push((rank, if rank == rc::SRV { srv.clone() } else { rng.bytes(if rank % 2 == 0 { 4 } else { 8 }) }));
+                            }
+                        }
                         if p == Proto::Ietf { fields.push((rc::VER, proto::VER_DRAFT13.to_le_bytes().to_vec())); }
                         // ... every second one ends in an EMPTY field (the highest tag carries nothing: its offset equals the
                         // length of the value area)
@@ -649,6 +700,15 @@ pub fn drive_hostile(ctx: &mut Ctx, rng: &mut Rng, thorough: bool) {
                                 d[off..off + 4].copy_from_slice(&cnt.to_le_bytes());
                                 sends.push((2 + sends.len() % 6, d));
                             }
+                        }
+                    }
+                    // once per section: EVERY short length 0..=40 - prefixes of valid requests of both protocols (the magic alone,
+                    // the magic with part of the length word, a header cut in the middle) and the same lengths of random bytes
+                    if r == 1 {
+                        let gi = [valid_request(rng, Proto::Google, 1024, None), valid_request(rng, Proto::Ietf, 1024, None)];
+                        for len in 0..=40usize {
+                            for b in &gi { sends.push((2 + sends.len() % 6, b[..len].to_vec())); }
+                            if len % 4 == 0 { sends.push((2 + sends.len() % 6, rng.bytes(len))); }
                         }
                     }
                     // the full batch of invalid datagrams followed by a valid request exercises early exits of the drain loop
